@@ -21,6 +21,9 @@ static Case gen_case ()
 	int k = *rangeOf<int> (0, 9) ;
 	c.set ("kind", k < 5 ? "hist" : "malformed") ;	// opens failing under injected I/O faults are C15's (fork-isolated) domain
 	const FmtEntry *e = pickEntry (all_vio_entries ()) ;
+	// one case in 25: SD2 (path only) with a damaged resource fork
+	static std::vector<const FmtEntry *> sd2 ; if (sd2.empty ()) for (auto *x : all_entries ()) if ((x->format & SF_FORMAT_TYPEMASK) == SF_FORMAT_SD2) sd2.push_back (x) ;
+	if (!sd2.empty () && *rangeOf<int> (0, 24) == 0) { e = *rc::gen::elementOf (sd2) ; c.set ("kind", "malformed") ; }
 	c.set ("fmt", format_str (e->format)) ; c.seti ("format", e->format) ;
 	int ch = pickChannels (e, 8) ; c.seti ("ch", ch) ;
 	c.set ("mode", *rc::gen::element<std::string> ("read", "write", "write", "rdwr")) ;
@@ -131,6 +134,28 @@ static Result run_case (const Case &c)
 			}
 		}
 		closebad = close_route (o) ;
+	}
+	else if (kind == "malformed" && (s.format & SF_FORMAT_TYPEMASK) == SF_FORMAT_SD2)
+	{	// SD2 keeps everything in a resource fork ("._name" next to the data file): write a valid pair by path, damage the fork, open by path
+		std::string dir = scratch_dir (), name = "c16sd2_" + std::to_string ((long) getpid ()) + ".sd2", path = dir + "/" + name, rpath = dir + "/._" + name ;
+		unlink (path.c_str ()) ; unlink (rpath.c_str ()) ;
+		SF_INFO wi ; memset (&wi, 0, sizeof (wi)) ; wi.format = s.format ; wi.channels = ch ; wi.samplerate = 44100 ; SNDFILE *w = sf_open (path.c_str (), SFM_WRITE, &wi) ;
+		if (w) { std::vector<short> a ((size_t) 64 * ch, 1234) ; sf_writef_short (w, a.data (), 64) ; sf_close (w) ; }
+		std::vector<uint8_t> fork ; read_file (rpath, fork) ; int mut = (int) c.geti ("mut") ; size_t cut = fork.empty () ? 0 : (size_t) c.geti ("cut") * fork.size () / 1000 ;
+		if (!fork.empty ())
+		{	switch (mut)
+			{	case 0 : case 1 : fork.resize (cut) ; break ;
+				case 2 : fork [cut % fork.size ()] ^= (uint8_t) (1 + rng.below (255)) ; break ;
+				case 3 : case 4 : { static const uint16_t vals [] = { 0xffff, 0, 1, 0x7fff, 0x8000, 27, 28, 29 } ; uint16_t v = vals [rng.below (8)] ; size_t at = (cut & ~(size_t) 1) % fork.size () ; fork [at] = (uint8_t) (v >> 8) ; if (at + 1 < fork.size ()) fork [at + 1] = (uint8_t) v ; } break ;
+				case 5 : { static const uint32_t vals [] = { 0xffffffffu, 0, 16, 0x7fffffffu, 0x100, 28 } ; uint32_t v = vals [rng.below (6)] ; size_t at = (size_t) (4 * rng.below (4)) ; for (size_t i = 0 ; i < 4 && at + i < fork.size () ; i++) fork [at + i] = (uint8_t) (v >> (24 - 8 * i)) ; } break ;	// the four header words: data offset, map offset, data length, map length
+				default : for (int i = 0 ; i < 4 ; i++) fork [rng.below (fork.size ())] = (uint8_t) rng.next () ; break ;
+			}
+			write_file (rpath, fork) ;
+		}
+		SF_INFO info ; memset (&info, 0, sizeof (info)) ; SNDFILE *g = sf_open (path.c_str (), SFM_READ, &info) ;
+		if (!g) failed_open = true ; else { int chn = info.channels > 0 && info.channels <= 1024 ? info.channels : 1 ; long long n = chn <= 256 ? 256 / chn : 1 ; Block b ((size_t) n * chn * 2) ; if (info.channels == chn) sf_readf_short (g, (short *) b.p, n) ; if (sf_close (g) != 0) closebad = "sf_close failed" ; }
+		unlink (path.c_str ()) ; unlink (rpath.c_str ()) ;
+		r.classes.push_back (failed_open ? "sd2_fork:rejected" : "sd2_fork:opened") ;
 	}
 	else if (kind == "malformed")
 	{	std::vector<uint8_t> bytes = valid ; int mut = (int) c.geti ("mut") ; size_t cut = bytes.empty () ? 0 : (size_t) c.geti ("cut") * bytes.size () / 1000 ;
